@@ -17,6 +17,7 @@ Viol(c) ==
 \cup (IF c.aftererr = "" THEN {} ELSE {"FailFastPassesAfterwards"})
 \cup (IF c.valid /\ c.changed # <<>> THEN {"ValidDirectoryUntouched"} ELSE {})
 \cup (IF c.leak = 0 THEN {} ELSE {"NoGoroutineLeftBehind"})
+\cup (IF c.againerr = "" /\ c.againchanged = <<>> THEN {} ELSE {"HealingAgainWithTheSameContextChangesNothing"})
 Report == Viol(T[l]) = {} \/ PrintT(<<"VIOL", l, Viol(T[l])>>)
 Stats == PrintT(<<"STAT", l, Len(T[l].damage), IF T[l].dirswap THEN 1 ELSE 0>>)
 =============================================================================
